@@ -53,7 +53,8 @@ R_SCOPES = {
             (I("http://e/alice"), I("alice"), L("alice")),
             (I("bob"), I("http://e/p"), I("http://e/bob")),
             (I("http://e/"), I("p"), I("http://e/p")),
-            (I("urn:x"), I("http://e/p"), I("x")),
+            # (the IRI rdflib uses as default-graph sentinel, here an ordinary subject and object)
+            (I("urn:x-rdflib:default"), I("http://e/p"), I("urn:x-rdflib:default")),
             (B("alice"), I("http://f#alice"), I("alice")),
         ],
         "presets": [(8, 0, 0), (8, 3, 0), (16, 4, 0), (4000, 150, 32)],
@@ -197,7 +198,7 @@ def expected_cases(js: list) -> int:
         if kind == "S":
             tot += 3
         elif kind == "A":
-            tot += (hi - lo) * (len(FRAME_SIZES) * len(MODES) + (1 if cls != "triple" else 0))
+            tot += (hi - lo) * (len(FRAME_SIZES) * len(MODES) + (1 if cls != "triple" else 0) + 1)
         elif kind == "C":
             tot += hi - lo
         else:
@@ -255,6 +256,8 @@ def run_job(job, judge) -> dict:
             if cls != "triple":
                 # the same dataset with two registered but empty named graphs
                 configs.append((pi, 250, "flat", True, "graph_serialize_stream+empty"))
+            # the container's (default) namespace bindings declared in the stream
+            configs.append((pi, 250, "flat", True, "graph_serialize_stream+ns"))
         elif kind == "C":
             configs = [(pi, 250, "flat", True, "graph_serialize_stream")]
         else:
@@ -272,6 +275,9 @@ def run_job(job, judge) -> dict:
                 acc.nontrivial += 1
             try:
                 opts = make_opts(cls, preset, fs, lk, dl)
+                if writer.endswith("+ns"):
+                    opts = DR.make_options(cls, preset, fs, dl, generalized=False, rdf_star=False,
+                                           ns=True)
                 data = DR.r_write(seq, cls, opts, writer)
             except Exception as e:  # noqa: BLE001
                 judge(case, seq, None, e, acc)
@@ -295,6 +301,9 @@ def replay_case(case: dict, judge) -> list:
     try:
         opts = make_opts(case["cls"], tuple(case["preset"]), case["frame_size"], case["logical"],
                          case["delimited"])
+        if case["writer"].endswith("+ns"):
+            opts = DR.make_options(case["cls"], tuple(case["preset"]), case["frame_size"],
+                                   case["delimited"], generalized=False, rdf_star=False, ns=True)
         data = DR.r_write(seq, case["cls"], opts, case["writer"])
     except Exception as e:  # noqa: BLE001
         judge(case, seq, None, e, acc)
